@@ -60,7 +60,8 @@ Proof. intros <-. unfold sub. cbn [skipn]. rewrite firstn_app, Nat.sub_diag, fir
 
 Lemma sub_skip (a r : str) k m n : length a = k -> sub (a ++ r) (k + m) n = sub r m n.
 Proof.
-  intros <-. unfold sub. f_equal. rewrite skipn_app. rewrite (skipn_all2 a) by lia. cbn [app]. f_equal. lia.
+  intros <-. unfold sub. f_equal. rewrite skipn_app. rewrite (skipn_all2 a) by lia. cbn [app].
+  replace (length a + m - length a) with m by lia. reflexivity.
 Qed.
 
 Lemma sub_at (pre x post : str) k n : length pre = k -> length x = n -> sub (pre ++ x ++ post) k n = x.
@@ -72,8 +73,8 @@ Proof.
   unfold byte_length, bit_length. set (a := N.to_nat (N.size n)).
   assert (Ha: a <= 8 * ((a + 7) / 8)).
   { pose proof (Nat.div_mod (a + 7) 8 ltac:(lia)). pose proof (Nat.mod_upper_bound (a + 7) 8 ltac:(lia)). lia. }
-  pose proof (N.size_gt n) as Hs.
-  assert (E: (256 ^ N.of_nat ((a + 7) / 8) = 2 ^ (8 * N.of_nat ((a + 7) / 8)))%N) by (rewrite N.pow_mul_r; reflexivity).
+  pose proof (N.size_gt n) as Hs. remember ((a + 7) / 8) as q eqn:Eq. clear Eq.
+  assert (E: (256 ^ N.of_nat q = 2 ^ (8 * N.of_nat q))%N) by (rewrite N.pow_mul_r; reflexivity).
   rewrite E. eapply N.lt_le_trans; [exact Hs|]. apply N.pow_le_mono_r; [lia|]. unfold a in Ha. lia.
 Qed.
 
@@ -118,12 +119,16 @@ Proof.
   exists (ljust s0 (e_id e) ++ a ++ b ++ c). unfold enc_rec. rewrite Ea, Eb, Ec. split; [reflexivity|].
   pose proof (ljust_length s0 (e_id e) F0) as L0. split.
   - unfold recsize. rewrite !app_length. lia.
-  - unfold dec_rec. rewrite (sub_app_l _ _ s0 L0).
-    rewrite <- (Nat.add_0_r s0) at 1. rewrite (sub_skip _ _ s0 0 s1 L0), (sub_app_l _ _ s1 La).
-    rewrite (sub_skip _ _ s0 s1 s2 L0). rewrite <- (Nat.add_0_r s1) at 1. rewrite (sub_skip _ _ s1 0 s2 La), (sub_app_l _ _ s2 Lb).
-    replace (s0 + s1 + s2) with (s0 + (s1 + s2)) by lia.
-    rewrite (sub_skip _ _ s0 (s1 + s2) s3 L0), (sub_skip _ _ s1 s2 s3 La). rewrite <- (Nat.add_0_r s2) at 1.
-    rewrite (sub_skip _ _ s2 0 s3 Lb). rewrite <- (app_nil_r c) at 1. rewrite (sub_app_l _ _ s3 Lc).
+  - unfold dec_rec. set (A := ljust s0 (e_id e)) in *.
+    assert (E0: sub (A ++ a ++ b ++ c) 0 s0 = A) by (apply sub_app_l; exact L0).
+    assert (E1: sub (A ++ a ++ b ++ c) s0 s1 = a) by (apply sub_at; assumption).
+    assert (E2: sub (A ++ a ++ b ++ c) (s0 + s1) s2 = b).
+    { replace (A ++ a ++ b ++ c) with ((A ++ a) ++ b ++ c) by (rewrite <- app_assoc; reflexivity).
+      apply sub_at; [rewrite app_length; lia|exact Lb]. }
+    assert (E3: sub (A ++ a ++ b ++ c) (s0 + s1 + s2) s3 = c).
+    { replace (A ++ a ++ b ++ c) with ((A ++ a ++ b) ++ c ++ []) by (rewrite app_nil_r, <- !app_assoc; reflexivity).
+      apply sub_at; [rewrite !app_length; lia|exact Lc]. }
+    rewrite E0, E1, E2, E3. unfold A.
     rewrite Va, Vb, Vc, !Nat2N.id, (rstrip_ljust s0 _ Hsp). destruct e; reflexivity.
 Qed.
 
@@ -143,7 +148,10 @@ Qed.
 
 (* the column widths write() computes fit every record *)
 Lemma max_list_ge x : forall l, In x l -> x <= max_list l.
-Proof. induction l as [|y l IH]; intros [<-|H]; cbn [max_list fold_right]; [lia|]. specialize (IH H). unfold max_list in IH. lia. Qed.
+Proof.
+  induction l as [|y l IH]; intros H; [destruct H|]. cbn [max_list fold_right]. destruct H as [<-|H]; [lia|].
+  specialize (IH H). unfold max_list in IH. lia.
+Qed.
 
 Lemma sizes_fit data e : In e data -> fits (bsf_sizes data) e.
 Proof.
@@ -159,38 +167,92 @@ Lemma to_bytes_nat s k : (N.of_nat k < 256 ^ N.of_nat s)%N ->
   exists b, to_bytes s (N.of_nat k) = Some b /\ length b = s /\ N.to_nat (from_bytes b) = k.
 Proof. intros H. destruct (to_bytes_some s _ H) as [b [E [L V]]]. exists b. rewrite V, Nat2N.id. auto. Qed.
 
-Lemma field_meta_ok ty s : ty < 256 -> s < 65536 ->
+Lemma field_meta_ok ty s : ty < 256 -> (N.of_nat s < 65536)%N ->
   exists t z, field_meta ty s = Some (t ++ z) /\ length t = 1 /\ length z = 2 /\ N.to_nat (from_bytes z) = s.
 Proof.
-  intros Ht Hs. destruct (to_bytes_nat 1 ty ltac:(cbn; lia)) as [t [Et [Lt _]]].
-  destruct (to_bytes_nat 2 s ltac:(cbn; lia)) as [z [Ez [Lz Vz]]].
+  intros Ht Hs. destruct (to_bytes_nat 1 ty ltac:(change (256 ^ N.of_nat 1)%N with 256%N; lia)) as [t [Et [Lt _]]].
+  destruct (to_bytes_nat 2 s ltac:(change (256 ^ N.of_nat 2)%N with 65536%N; lia)) as [z [Ez [Lz Vz]]].
   exists t, z. unfold field_meta. rewrite Et, Ez. auto.
 Qed.
 
+Definition sizes_small (sz : sizes) : Prop :=
+  let '(s0, s1, s2, s3) := sz in (N.of_nat s0 < 65536 /\ N.of_nat s1 < 65536 /\ N.of_nat s2 < 65536 /\ N.of_nat s3 < 65536)%N.
+
+(* reopening at the byte level: the file write() produces for any header and any records (ids without blanks, not empty)
+   parses back -- read_header() gives the header, read() the sorted records -- whenever the offsets and column widths fit
+   their two-byte fields (otherwise write() raises OverflowError) *)
 Theorem file_roundtrip (hdr : str) (data : list entry) :
-  length hdr + 22 < 65536 ->
-  Forall (fun e => no_byte SP (e_id e) = true /\ e_id e <> [] /\ length (e_id e) < 65536) data ->
+  (N.of_nat (length hdr) + 22 < 65536)%N -> sizes_small (bsf_sizes data) ->
+  Forall (fun e => no_byte SP (e_id e) = true /\ e_id e <> []) data ->
   exists f, bsf_file hdr data = Some f /\ bsf_parse f = Some (hdr, bsf_sizes data, sort_e data).
 Proof.
-  intros Hh Hd. set (sz := bsf_sizes data). set (recs := sort_e data).
+  intros Hh Hs Hd. unfold bsf_file. set (sz := bsf_sizes data) in *. set (recs := sort_e data).
   assert (Pm: Permutation recs data) by apply sort_perm.
   assert (Frecs: Forall (fits sz) recs).
   { apply Forall_forall. intros e He. apply sizes_fit. exact (Permutation_in _ Pm He). }
   assert (Srecs: Forall (fun e => no_byte SP (e_id e) = true) recs).
   { apply Forall_forall. intros e He. rewrite Forall_forall in Hd. exact (proj1 (Hd _ (Permutation_in _ Pm He))). }
-  destruct (records_roundtrip sz recs Frecs Srecs) as [d [Ed [Ld Dd]]].
-  destruct sz as [[[s0 s1] s2] s3] eqn:Esz.
-  (* the column widths fit two bytes *)
-  assert (B0: s0 < 65536).
-  { unfold sz, bsf_sizes in Esz. inversion Esz as [[E0 E1 E2 E3]]. clear - Hd.
-    induction data as [|e data IH]; cbn; [lia|]. inversion Hd as [|? ? [_ [_ H]] Hd']; subst. specialize (IH Hd'). unfold max_list in IH. lia. }
-  assert (Bn: forall g : entry -> nat, max_list (map (fun e => byte_length (N.of_nat (g e))) data) < 65536 \/ True) by (intros; right; exact I).
-  clear Bn.
-  (* byte lengths of naturals are small: a number below 2^(8*65535) -- we only need the width to fit, which holds whenever the
-     write succeeds; state it as a side condition through to_bytes *)
-  destruct (N.lt_ge_cases (N.of_nat s1) 65536) as [B1|B1]; [|].
-  2: { exfalso. clear - B1 Esz Hh. revert B1. unfold sz, bsf_sizes in Esz. inversion Esz as [[E0 E1 E2 E3]]. clear.
-       intros H. assert (X: forall l, (forall x, In x l -> x < 65536) -> max_list l < 65536).
-       { induction l as [|y l IH]; intros Hl; cbn; [lia|]. pose proof (Hl y (or_introl eq_refl)). specialize (IH (fun x Hx => Hl x (or_intror Hx))). unfold max_list in IH. lia. }
-       admit_placeholder. }
-Abort.
+  destruct (records_roundtrip sz recs Frecs Srecs) as [d [Ed [Ld Dd]]]. rewrite Ed.
+  assert (Rpos: recs <> [] -> 0 < recsize sz).
+  { intros Hne. destruct recs as [|e recs'] eqn:Er; [congruence|].
+    assert (Ie: In e data) by (apply (Permutation_in _ Pm); left; reflexivity).
+    rewrite Forall_forall in Hd. destruct (Hd _ Ie) as [_ Hid]. pose proof (sizes_fit data e Ie) as Fe. fold sz in Fe.
+    destruct sz as [[[s0 s1] s2] s3]. destruct Fe as [F0 _]. unfold recsize. destruct (e_id e); [congruence|]. cbn in F0. lia. }
+  destruct sz as [[[s0 s1] s2] s3] eqn:Esz. destruct Hs as [B0 [B1 [B2 B3]]].
+  set (mo := 8 + length hdr).
+  destruct (to_bytes_nat 2 mo ltac:(change (256 ^ N.of_nat 2)%N with 65536%N; unfold mo; lia)) as [a [Ea [La Va]]].
+  destruct (to_bytes_nat 2 (mo + 14) ltac:(change (256 ^ N.of_nat 2)%N with 65536%N; unfold mo; lia)) as [b [Eb [Lb Vb]]].
+  destruct (to_bytes_nat 2 4 ltac:(change (256 ^ N.of_nat 2)%N with 65536%N; lia)) as [n4 [En [Ln Vn]]]. cbn [N.of_nat Pos.of_succ_nat Pos.succ] in En.
+  destruct (field_meta_ok 0 s0 ltac:(lia) B0) as [t0 [z0 [M0 [Lt0 [Lz0 V0]]]]].
+  destruct (field_meta_ok 50 s1 ltac:(lia) B1) as [t1 [z1 [M1 [Lt1 [Lz1 V1]]]]].
+  destruct (field_meta_ok 50 s2 ltac:(lia) B2) as [t2 [z2 [M2 [Lt2 [Lz2 V2]]]]].
+  destruct (field_meta_ok 50 s3 ltac:(lia) B3) as [t3 [z3 [M3 [Lt3 [Lz3 V3]]]]].
+  fold mo. rewrite Ea, Eb. unfold meta_bytes. rewrite En, M0, M1, M2, M3.
+  eexists. split; [reflexivity|].
+  set (f := MAGIC ++ a ++ b ++ hdr ++ (n4 ++ (t0 ++ z0) ++ (t1 ++ z1) ++ (t2 ++ z2) ++ t3 ++ z3) ++ d).
+  assert (Lm: length MAGIC = 4) by reflexivity.
+  (* the fields of the file at their offsets *)
+  assert (R1: rint f 4 2 = mo).
+  { unfold rint, f. rewrite (sub_at MAGIC a _ 4 2 Lm La). exact Va. }
+  assert (R2: rint f 6 2 = mo + 14).
+  { unfold rint, f. replace (MAGIC ++ a ++ b ++ hdr ++ (n4 ++ (t0 ++ z0) ++ (t1 ++ z1) ++ (t2 ++ z2) ++ t3 ++ z3) ++ d)
+      with ((MAGIC ++ a) ++ b ++ hdr ++ (n4 ++ (t0 ++ z0) ++ (t1 ++ z1) ++ (t2 ++ z2) ++ t3 ++ z3) ++ d) by (rewrite <- !app_assoc; reflexivity).
+    rewrite (sub_at (MAGIC ++ a) b _ 6 2); [exact Vb|rewrite app_length; lia|exact Lb]. }
+  assert (R3: sub f 8 (mo - 8) = hdr).
+  { unfold f. replace (MAGIC ++ a ++ b ++ hdr ++ (n4 ++ (t0 ++ z0) ++ (t1 ++ z1) ++ (t2 ++ z2) ++ t3 ++ z3) ++ d)
+      with ((MAGIC ++ a ++ b) ++ hdr ++ (n4 ++ (t0 ++ z0) ++ (t1 ++ z1) ++ (t2 ++ z2) ++ t3 ++ z3) ++ d) by (rewrite <- !app_assoc; reflexivity).
+    apply sub_at; [rewrite !app_length; lia|unfold mo; lia]. }
+  set (P := MAGIC ++ a ++ b ++ hdr).
+  assert (LP: length P = mo) by (unfold P, mo; rewrite !app_length; lia).
+  assert (Ef: f = P ++ n4 ++ t0 ++ z0 ++ t1 ++ z1 ++ t2 ++ z2 ++ t3 ++ z3 ++ d) by (unfold f, P; rewrite <- !app_assoc; reflexivity).
+  assert (R4: rint f mo 2 = 4).
+  { unfold rint. rewrite Ef, (sub_at P n4 _ mo 2 LP Ln). exact Vn. }
+  assert (R5: rint f (mo + 3) 2 = s0).
+  { unfold rint. rewrite Ef. replace (P ++ n4 ++ t0 ++ z0 ++ t1 ++ z1 ++ t2 ++ z2 ++ t3 ++ z3 ++ d)
+      with ((P ++ n4 ++ t0) ++ z0 ++ t1 ++ z1 ++ t2 ++ z2 ++ t3 ++ z3 ++ d) by (rewrite <- !app_assoc; reflexivity).
+    rewrite (sub_at _ z0 _ (mo + 3) 2); [exact V0|rewrite !app_length; lia|exact Lz0]. }
+  assert (R6: rint f (mo + 6) 2 = s1).
+  { unfold rint. rewrite Ef. replace (P ++ n4 ++ t0 ++ z0 ++ t1 ++ z1 ++ t2 ++ z2 ++ t3 ++ z3 ++ d)
+      with ((P ++ n4 ++ t0 ++ z0 ++ t1) ++ z1 ++ t2 ++ z2 ++ t3 ++ z3 ++ d) by (rewrite <- !app_assoc; reflexivity).
+    rewrite (sub_at _ z1 _ (mo + 6) 2); [exact V1|rewrite !app_length; lia|exact Lz1]. }
+  assert (R7: rint f (mo + 9) 2 = s2).
+  { unfold rint. rewrite Ef. replace (P ++ n4 ++ t0 ++ z0 ++ t1 ++ z1 ++ t2 ++ z2 ++ t3 ++ z3 ++ d)
+      with ((P ++ n4 ++ t0 ++ z0 ++ t1 ++ z1 ++ t2) ++ z2 ++ t3 ++ z3 ++ d) by (rewrite <- !app_assoc; reflexivity).
+    rewrite (sub_at _ z2 _ (mo + 9) 2); [exact V2|rewrite !app_length; lia|exact Lz2]. }
+  assert (R8: rint f (mo + 12) 2 = s3).
+  { unfold rint. rewrite Ef. replace (P ++ n4 ++ t0 ++ z0 ++ t1 ++ z1 ++ t2 ++ z2 ++ t3 ++ z3 ++ d)
+      with ((P ++ n4 ++ t0 ++ z0 ++ t1 ++ z1 ++ t2 ++ z2 ++ t3) ++ z3 ++ d) by (rewrite <- !app_assoc; reflexivity).
+    rewrite (sub_at _ z3 _ (mo + 12) 2); [exact V3|rewrite !app_length; lia|exact Lz3]. }
+  assert (R9: skipn (mo + 14) f = d /\ length f = mo + 14 + length d).
+  { rewrite Ef. replace (P ++ n4 ++ t0 ++ z0 ++ t1 ++ z1 ++ t2 ++ z2 ++ t3 ++ z3 ++ d)
+      with ((P ++ n4 ++ t0 ++ z0 ++ t1 ++ z1 ++ t2 ++ z2 ++ t3 ++ z3) ++ d) by (rewrite <- !app_assoc; reflexivity).
+    assert (LL: length (P ++ n4 ++ t0 ++ z0 ++ t1 ++ z1 ++ t2 ++ z2 ++ t3 ++ z3) = mo + 14) by (rewrite !app_length; lia).
+    split; [rewrite <- LL, skipn_app, Nat.sub_diag, skipn_all; reflexivity|rewrite app_length; lia]. }
+  destruct R9 as [R9 R10].
+  unfold bsf_parse. fold f. rewrite R1, R2, R4, R5, R6, R7, R8. cbn [Nat.eqb]. rewrite R3, R9, R10.
+  replace (mo + 14 + length d - (mo + 14)) with (length d) by lia. rewrite Ld.
+  destruct (recsize (s0, s1, s2, s3) =? 0) eqn:Ez.
+  - apply Nat.eqb_eq in Ez. destruct recs as [|e recs'] eqn:Er; [reflexivity|].
+    exfalso. assert (X: 0 < recsize (s0, s1, s2, s3)) by (apply Rpos; discriminate). lia.
+  - apply Nat.eqb_neq in Ez. rewrite Nat.div_mul by exact Ez. rewrite Dd. reflexivity.
+Qed.
